@@ -163,6 +163,8 @@ impl Context {
     }
 
     pub fn replace_all(&self, s: &str) -> Result<String, String> {
+        const MAX_EXPANSION: usize = 1024 * 1024;
+        const TOO_LARGE: &str = "Macro expansion does not terminate or is too large (self-referential macro?)";
         let mut res = String::from(s);
         let mut changed;
         let mut passes = 0;
@@ -171,12 +173,26 @@ impl Context {
             changed = false;
             for (i, set) in self.regex_sets.iter().enumerate() {
                 for idx in set.matches(s).into_iter() {
-                    let x = self.regexes[i][idx]
-                        .0
-                        .replace_all(&res, &self.regexes[i][idx].1);
+                    let (regex, value) = &self.regexes[i][idx];
+                    // The size limit below is checked on every substitution, and before building a
+                    // text that cannot fit: every use costs at most the body plus, for each
+                    // parameter reference, the text of the use
+                    let uses = regex.find_iter(&res).count();
+                    let references = value.matches('$').count();
+                    if uses
+                        .saturating_mul(value.len())
+                        .saturating_add(references.saturating_mul(res.len()))
+                        > 16 * MAX_EXPANSION
+                    {
+                        return Err(TOO_LARGE.to_string());
+                    }
+                    let x = regex.replace_all(&res, value);
                     if let Cow::Owned(z) = x {
                         res = z.to_string();
                         changed = true;
+                        if res.len() > MAX_EXPANSION {
+                            return Err(TOO_LARGE.to_string());
+                        }
                     }
                 }
             }
@@ -186,8 +202,8 @@ impl Context {
             // A macro that expands (directly or not) to itself never reaches a fixed point,
             // and nested uses of a long macro can grow without reasonable bound
             passes += 1;
-            if passes > 256 || res.len() > 1024 * 1024 {
-                return Err("Macro expansion does not terminate or is too large (self-referential macro?)".to_string());
+            if passes > 256 || res.len() > MAX_EXPANSION {
+                return Err(TOO_LARGE.to_string());
             }
         }
         Ok(res)
